@@ -228,7 +228,8 @@ def units(tier, seed):
 CALC_BOUNDS = {
     'quick': [(k, em, 2, 1, a) for k in ('electricity', 'direct-use', 'cogen-topping') for em in (1, 2, 3) for a in (0, 1)] + [('sbt', 3, 2, 1, 0), ('chiller', 3, 2, 1, 1), ('heat-pump', 2, 2, 1, 1)],
     'thorough': [(k, em, L, K, a) for k in ('electricity', 'direct-use', 'chiller', 'heat-pump', 'district-heating', 'cogen-topping', 'cogen-bottoming', 'cogen-parallel')
-                 for em in (1, 2, 3) for (L, K, a) in ((2, 1, 0), (2, 1, 1), (3, 2, 2))] + [('sbt', em, 2, 1, 0) for em in (1, 2, 3)],
+                 for em in (1, 2, 3) for (L, K, a) in ((2, 1, 0), (2, 1, 1), ((3, 2, 2) if em != 2 else (3, 2, 0)))] + [('sbt', em, 2, 1, 0) for em in (1, 2, 3)],
+    # (standard model: the largest configuration runs without add-ons - with two add-ons the symbolic NPV-convention flag, purchase rate and sale prices push a unit past its 1500 s limit, measured)
 }
 META['bounds']['quick']['level B (kind, economic model, L, K, add-ons)'] = [list(x) for x in CALC_BOUNDS['quick']]
 META['bounds']['thorough']['level B (kind, economic model, L, K, add-ons)'] = [list(x) for x in CALC_BOUNDS['thorough']]
